@@ -196,14 +196,18 @@ def kinematics(vk, cfg):
     vk.canary("VolumeChange/hessian==0", H, 0 * H)
 
 
-@contract("C03", "mixed", configs=[dict(wrapper=w, parallel=p) for w in ("ThreeFieldVariation", "NearlyIncompressible") for p in (False, True)] + [dict(wrapper="NearlyIncompressible", parallel=False, volumetric="custom")] + [dict(wrapper=w, parallel=False, state=True) for w in ("ThreeFieldVariation", "NearlyIncompressible")])
+@contract("C03", "mixed", configs=[dict(wrapper=w, parallel=p) for w in ("ThreeFieldVariation", "NearlyIncompressible") for p in (False, True)] + [dict(wrapper="NearlyIncompressible", parallel=False, volumetric="custom")] + [dict(wrapper=w, parallel=False, state=True) for w in ("ThreeFieldVariation", "NearlyIncompressible")] + [dict(wrapper=w, parallel=False, inner="no-major-symmetry") for w in ("ThreeFieldVariation", "NearlyIncompressible")])
 def mixed(vk, cfg):
     """every returned block of the (u, p, J) formulations is the corresponding mixed second derivative (for a
     wrapped material with stored state: at fixed stored state, and the wrapper hands back the wrapped material's
     new state evaluated at the argument the wrapper documents)"""
     if cfg.get("state"):
         return mixed_state(vk, cfg)
-    inner = StubMaterial(vk, hyperelastic=True)
+    # inner="no-major-symmetry": a stress-based inner law (non-conservative user material, MORPH): A = dP/dF without
+    # A_ijkl == A_klij.  The list of six blocks is an upper-triangle storage (the lower blocks of the system matrix are
+    # the transposes), so the (u, J) block can only be ONE of d f_u / dJ and (d f_J / dF): the code returns the latter
+    nosym = cfg.get("inner") == "no-major-symmetry"
+    inner = StubMaterial(vk, hyperelastic=not nosym)
     F = F_sym(vk)
     p = vk.reals("p", (Q, C), near=0.5)
     J = vk.reals("J", (Q, C), near=1.0, spread=0.2)
@@ -232,14 +236,20 @@ def mixed(vk, cfg):
     s4, s2, s0_ = (3, 3, 3, 3, Q, C), (3, 3, Q, C), (Q, C)
     vk.ensures_eq("hessian[uu]==D(gradient[u],F)", z(Huu, s4), dF(vk, gu, F))
     vk.ensures_eq("hessian[up]==D(gradient[u],p)", z(Hup, s2), dS(vk, gu, p))
-    vk.ensures_eq("hessian[uJ]==D(gradient[u],J)", z(HuJ, s2), dS(vk, gu, J))
+    if not nosym or cfg["wrapper"] == "NearlyIncompressible":
+        vk.ensures_eq("hessian[uJ]==D(gradient[u],J)", z(HuJ, s2), dS(vk, gu, J))
+    else:
+        vk.note("observation (outside the documented domain 'nearly-incompressible hyperelasticity'): around an inner material whose tangent lacks major symmetry ThreeFieldVariation's (u, J) block equals d f_J / dF but not d f_u / dJ (they differ by F:A - A:F); the upper-triangle block list cannot hold both")
+        if vk.sym:
+            vk.canary("no-major-symmetry/hessian[uJ]==D(gradient[u],J) (cannot hold: F:A != A:F)", z(HuJ, s2), dS(vk, gu, J))
     vk.ensures_eq("hessian[up]==D(gradient[p],F)", z(Hup, s2), dF(vk, bc(gp, s0_), F))
     vk.ensures_eq("hessian[uJ]==D(gradient[J],F)", z(HuJ, s2), dF(vk, bc(gJ, s0_), F))
     vk.ensures_eq("hessian[pp]==D(gradient[p],p)", z(Hpp, s0_), dS(vk, bc(gp, s0_), p))
     vk.ensures_eq("hessian[pJ]==D(gradient[p],J)", z(HpJ, s0_), dS(vk, bc(gp, s0_), J))
     vk.ensures_eq("hessian[pJ]==D(gradient[J],p)", z(HpJ, s0_), dS(vk, bc(gJ, s0_), p))
     vk.ensures_eq("hessian[JJ]==D(gradient[J],J)", z(HJJ, s0_), dS(vk, bc(gJ, s0_), J))
-    vk.ensures_eq("hessian[uu]-major-symmetric", z(Huu, s4), np.einsum("ijkl...->klij...", z(Huu, s4)))
+    if not nosym:
+        vk.ensures_eq("hessian[uu]-major-symmetric", z(Huu, s4), np.einsum("ijkl...->klij...", z(Huu, s4)))
     if vk.sym:
         vk.canary("hessian[uJ]==0", z(HuJ, s2), ring.lift(np.zeros(s2)) + (0 if cfg["wrapper"] == "ThreeFieldVariation" else 1))
 
